@@ -442,7 +442,7 @@ def gen_random_num(ctx, count):
     cases = []
     for _ in range(count):
         style = rng.choice(['cluster', 'cluster', 'full', 'equal', 'missing-heavy', 'allmissing', 'wide-spread',
-                            'out-of-range', 'odd-width'])
+                            'out-of-range', 'odd-width', 'cf-allones'])
         w = rng.choice([1, 2, 3, 5, 7, 8, 9, 12, 15, 16, 17, 24, 31, 32, 33, 48, 62, 63, 64]) \
             if rng.random() < 0.6 else rng.randrange(1, 65)
         n = rng.choice([1, 2, 3, 4, 5, 8, 13, 25, 40]) if rng.random() < 0.6 else rng.randrange(1, 41)
@@ -471,15 +471,22 @@ def gen_random_num(ctx, count):
             hi = min(hi, top)
             vals = [0, hi] + [rng.choice([None, 0, hi, rng.randrange(0, hi + 1)]) for _ in range(max(0, n - 2))]
             rng.shuffle(vals)
+        elif style == 'cf-allones':
+            # a code/flag value equal to the all-ones pattern is the missing value, given explicitly
+            w = rng.randrange(2, 17)
+            top = 2 ** w - 2
+            lo = rng.randrange(0, top + 1)
+            vals = [lo] + [rng.choice([None, top + 1, top + 1, lo, rng.randrange(lo, top + 1)]) for _ in range(max(1, n - 1))]
+            rng.shuffle(vals)
         elif style == 'out-of-range':
             vals = [rng.choice([-1, top + 1, top + 2, 2 ** w, rng.randrange(0, top + 1), None]) for _ in range(n)]
         else:   # odd-width: the width itself is illegal
             w = rng.choice([0, -1, -2, 65, 66, 70, 100, -65, -66, -70])
             vals = [rng.choice([None, 0, 1, 5]) for _ in range(n)]
-        kind = rng.choice(['num', 'num', 'cf'])
+        kind = 'cf' if style == 'cf-allones' else rng.choice(['num', 'num', 'cf'])
         dn = None
         if kind == 'cf':
-            dn = w if rng.random() < 0.8 else rng.choice([w + 1, w - 1, 1, 64, 65, 0])
+            dn = w if (style == 'cf-allones' or rng.random() < 0.8) else rng.choice([w + 1, w - 1, 1, 64, 65, 0])
         sufpat = format(rng.getrandbits(16), '016b')
         wl = []
         if in_dom_num(w, vals) and w >= 1 and (dn is None or dn == w):
